@@ -8,6 +8,11 @@ fn main() {
         eprintln!("usage: avm <Cxx|selftest> <quick|thorough> [--replay FILE]");
         std::process::exit(2);
     }
+    if args[1] == "C16-prefilter" {
+        avm::run::install_panic_hook();
+        let from = args.get(3).and_then(|s| s.parse().ok()).unwrap_or(0);
+        std::process::exit(avm::monitors::c16::prefilter_main(&args[2], from));
+    }
     let tier = match args[2].as_str() {
         "thorough" => Tier::Thorough,
         _ => Tier::Quick,
